@@ -76,6 +76,10 @@ claim("C11", "atomic claim (CAS) rule for the pending-request slots, overlap-edg
       "Static rules over transports/polling.go and types/http-context.go: the poll and data slots are claimed with CompareAndSwap(nil, ctx) and only nil is ever stored otherwise; the overlap edge reports the error, answers 400 and returns; HttpContext.Write is the only writer of the raw ResponseWriter (besides the protocol upgraders), under its mutex, only when not done, and marks done once; 'ok' is written only after OnData and cleanup, on a synchronous dispatch chain; every path of the request functions answers or parks; DoClose/OnClose/send/respond release a pending poll with close/noop or a bounded timer. Pairing under aborts racing with writes is not decided.",
       TB, "DESIGN.md §3 C11")
 
+claim("C12", "branch-effect rules of Close/closeTransport, range-callback rule for shutdown, listener wiring rule, polling close-release effect table, lock-ordering rule between DoClose and the send goroutine, must-precede of the close callback",
+      "Static rules: a graceful Close transitions to closing, then waits for drain when the buffer is non-empty and otherwise closes the transport with a callback that reports 'forced close' (Discard only on the discard edge); server shutdown ranges over all clients with Close(true) and never stops early, is wired to the HTTP server's close event, which is emitted before the listeners shut down; polling releases a pending poll with close/noop or a bounded timer on every DoClose branch; the close callback precedes connection teardown. websocket/webTransport DoClose have no ordering edge to the in-flight send goroutine (two listed findings: send-then-close can lose the last batch). On-wire order of last data versus close and the 30 s / heartbeat bounds as times are not decided.",
+      TB, "DESIGN.md §3 C12")
+
 UNDER_CONSTRUCTION = "static rule set designed in DESIGN.md §3 but its checker is not built yet in this revision; not claimed until it is"
 
 def main():
